@@ -1,0 +1,53 @@
+//go:build verif
+
+package main
+
+import (
+	"bytes"
+	"encoding/json"
+	"os"
+	"testing"
+)
+
+// TestVerifInproc runs benchstat() several times within this one process, as
+// directed by the JSON script named by VERIF_INPROC_SCRIPT (a list of argument
+// lists), and writes each run's stdout, stderr and error as JSON to the file
+// named by VERIF_INPROC_OUT. It exists for the verification harness (output
+// must not depend on earlier invocations in the same process) and is only
+// built with -tags verif.
+func TestVerifInproc(t *testing.T) {
+	script := os.Getenv("VERIF_INPROC_SCRIPT")
+	out := os.Getenv("VERIF_INPROC_OUT")
+	if script == "" || out == "" {
+		t.Skip("VERIF_INPROC_SCRIPT / VERIF_INPROC_OUT not set")
+	}
+	data, err := os.ReadFile(script)
+	if err != nil {
+		t.Fatal(err)
+	}
+	var runs [][]string
+	if err := json.Unmarshal(data, &runs); err != nil {
+		t.Fatal(err)
+	}
+	type result struct {
+		Stdout string `json:"stdout"`
+		Stderr string `json:"stderr"`
+		Err    string `json:"err"`
+	}
+	results := make([]result, len(runs))
+	for i, args := range runs {
+		var so, se bytes.Buffer
+		err := benchstat(&so, &se, args)
+		results[i] = result{Stdout: so.String(), Stderr: se.String()}
+		if err != nil {
+			results[i].Err = err.Error()
+		}
+	}
+	enc, err := json.Marshal(results)
+	if err != nil {
+		t.Fatal(err)
+	}
+	if err := os.WriteFile(out, enc, 0o644); err != nil {
+		t.Fatal(err)
+	}
+}
